@@ -588,6 +588,7 @@ type c17Plan struct {
 	lateW  []bool       // per thread (instead of late)
 	writes bool         // sched is a schedule of whole writes (mode "writes")
 	delay  []bool       // free runs: threads whose _localHeads writes are held back; nil = plain cache
+	same   bool         // single-write threads: every thread writes the same value
 }
 
 func c17Plans(r *Run) []c17Plan {
@@ -613,6 +614,15 @@ func c17Plans(r *Run) []c17Plan {
 			c17Plan{kind: "refute-view", typ: "docstore", n: 2, shared: true, sched: refView, late: k % 2},
 			c17Plan{kind: "refute-view", typ: "keyvalue", n: 2, sched: refView, late: 2}, // own keys: the stale rebuild cannot hide a key
 		)
+	}
+	// free runs of 3..6 goroutines that all write the SAME payload at the same moment (an event
+	// log used as a counter): every successful call still appends an entry of its own
+	nSame := 6
+	if thorough {
+		nSame = 24
+	}
+	for k := 0; k < nSame; k++ {
+		plans = append(plans, c17Plan{kind: "identical-payload", typ: "eventlog", n: 3 + r.Rng.Intn(4), same: true})
 	}
 	// all persist orders for 2 and 3 writers (appends in thread order, then persists in the
 	// given order, then every writer rebuilds the view on its own)
@@ -1109,7 +1119,11 @@ func c17RunOne(r *Run, pi int, p c17Plan) error {
 			if p.typ == "eventlog" {
 				op = "add"
 			}
-			w.calls = []*c17Call{{op: op, docs: []c17Doc{{key, fmt.Sprintf("v#%d#", i)}}}}
+			val := fmt.Sprintf("v#%d#", i)
+			if p.same {
+				val = "tick"
+			}
+			w.calls = []*c17Call{{op: op, docs: []c17Doc{{key, val}}}}
 			w.late = (p.late == 1 || (p.late == 2 && r.Rng.Intn(2) == 0)) && c17HasLate
 		}
 		for _, c := range w.calls {
